@@ -23,6 +23,7 @@ const c05Magefile = `//go:build mage
 package main
 
 import (
+	"context"
 	"errors"
 	"fmt"
 	"os"
@@ -66,6 +67,20 @@ func (fullWriter) Write(p []byte) (int, error) { return 0, errors.New("no space 
 
 func Panicker(tag int) { panic("requested failure (panic value)") }
 
+// dependencies of every supported signature whose failure carries the code (unexported: not targets); each is used by
+// exactly one kind, so the once-only rule never hides a later request
+var sigCode int
+
+func sigErr() error                            { return mg.Fatal(sigCode, "requested failure (func() error)") }
+func sigCtxErr(ctx context.Context) error      { return mg.Fatal(sigCode, "requested failure (func(ctx) error)") }
+func sigCtxErrC(ctx context.Context) error     { return mg.Fatal(sigCode, "requested failure (func(ctx) error via CtxDeps)") }
+func sigCtxErrS(ctx context.Context) error     { return mg.Fatal(sigCode, "requested failure (func(ctx) error via SerialDeps)") }
+func sigCtxErrF(ctx context.Context) error     { return mg.Fatal(sigCode, "requested failure (mg.F(func(ctx) error))") }
+func sigCtxPlain(ctx context.Context) error    { return errors.New("requested failure (func(ctx) error, plain)") }
+func sigCtxArg(ctx context.Context, code int) error { return mg.Fatal(code, "requested failure (func(ctx, int) error)") }
+func sigCtxPanic(ctx context.Context)          { panic(mg.Fatal(sigCode, "requested failure (func(ctx) panics)")) }
+func sigPlainPanic()                           { panic(mg.Fatal(sigCode, "requested failure (func() panics)")) }
+
 var counter int
 
 // Fail ends in the way its arguments say.
@@ -105,6 +120,31 @@ func Fail(kind string, a, b int) error {
 	case "shwriter":
 		_, err := sh.Exec(nil, fullWriter{}, nil, "echo", "hello")
 		return err
+	case "sigplain":
+		sigCode = a
+		mg.Deps(sigErr)
+	case "sigctx":
+		sigCode = a
+		mg.Deps(sigCtxErr)
+	case "sigctxc":
+		sigCode = a
+		mg.CtxDeps(context.Background(), sigCtxErrC)
+	case "sigser":
+		sigCode = a
+		mg.SerialDeps(sigCtxErrS)
+	case "sigf":
+		sigCode = a
+		mg.Deps(mg.F(sigCtxErrF))
+	case "sigctxplain":
+		mg.SerialCtxDeps(context.Background(), sigCtxPlain)
+	case "sigctxarg":
+		mg.Deps(mg.F(sigCtxArg, a))
+	case "sigctxpanic":
+		sigCode = a
+		mg.Deps(sigCtxPanic)
+	case "sigplainpanic":
+		sigCode = a
+		mg.Deps(sigPlainPanic)
 	case "qfatal":
 		return mg.Fatal(a)
 	case "qerr":
@@ -206,7 +246,8 @@ func c05Calls(out string) [][]string {
 }
 
 var c05Kinds = []string{"ok", "ok", "err", "fatal", "fatal", "fatalf", "sh", "panicerr", "panicfatal", "panicval", "exit", "deps", "deps", "deep", "deep", "serial", "errdep", "panicdep",
-	"qfatal", "qerr", "qdeps", "qdeep", "qserial", "qerrdep", "qpanicdep", "shwriter"}
+	"qfatal", "qerr", "qdeps", "qdeep", "qserial", "qerrdep", "qpanicdep", "shwriter",
+	"sigplain", "sigctx", "sigctxc", "sigser", "sigf", "sigctxplain", "sigctxarg", "sigctxpanic", "sigplainpanic"}
 
 func c05Code(r *rng.R) int {
 	switch r.Intn(6) {
@@ -288,11 +329,14 @@ func c05(c *Ctx) {
 		way := ways[r.Intn(len(ways))]
 		nt := 1 + r.Intn(3)
 		failAt := r.Intn(nt + 1) // nt = nobody fails
+		if i < len(c05Kinds)-2 && failAt == nt {
+			failAt = r.Intn(nt) // the first round goes through every failure kind once
+		}
 		var argv []string
 		kind := ""
 		for k := 0; k < nt; k++ {
 			if k == failAt {
-				t := c05Target(r, c05Kinds[2+r.Intn(len(c05Kinds)-2)])
+				t := c05Target(r, c05Kinds[2+i%(len(c05Kinds)-2)])
 				kind = t[1]
 				argv = append(argv, t...)
 			} else if r.Chance(1, 3) {
